@@ -40,7 +40,11 @@ type c06Job struct {
 	Prior string `json:"prior"` // none | inside | stop
 	P     uint64 `json:"p"`     // recorded position before the run (prior != none)
 	Grow  int    `json:"grow"`  // number of growth operations of the environment (1: h→h+3; 2: h→h+1→h+3; 3: +1,+1,+1)
-	Tick  bool   `json:"tick"`  // the environment may also grow the chain right AFTER the node answered an exchange and fire the client's head-poller ticker (the poller refreshes the head cache behind the task's back)
+	// Sib adds a second integration ig0 on the same source (same shape, table t0, same start, NO stop) that is stepped
+	// before every step of the integration under test and shares its client: "free" = unrelated; "ref" = the integration
+	// under test carries a filter reference to ig0's column f (so it also waits for ig0's position)
+	Sib  string `json:"sib,omitempty"`
+	Tick bool   `json:"tick"` // the environment may also grow the chain right AFTER the node answered an exchange and fire the client's head-poller ticker (the poller refreshes the head cache behind the task's back)
 }
 
 type c06Case struct {
@@ -56,7 +60,7 @@ func init() {
 		ID:        "C06",
 		Level:     "model_checking",
 		Technique: "stateless model checking of the real pipeline (controlled scheduler over instrumented code, fake Postgres, simulated node): every (start, stop) pair relative to the head x batch x concurrency x prior recorded position, all interleavings of task steps with head growth up to a preemption bound, every placement of a process restart; range oracle evaluated on every commit",
-		Rule: "jobs = head h in 1..5 (every block produces rows) x start in 0..h+2 x stop in {unset} u 1..h+2 x batch in 1..3 x conc in 1..2 x prior position in {none, inside the range (produced by really running the task on a shorter chain), at stop} x shape {L1 headers+logs, T1 blocks} (quick: the shape alternates with batch+conc and one inside position, the middle one; thorough: both shapes, every inside position); " +
+		Rule: "jobs = head h in 1..5 (every block produces rows) x start in 0..h+2 x stop in {unset} u 1..h+2 x batch in 1..3 x conc in 1..2 x prior position in {none, inside the range (produced by really running the task on a shorter chain), at stop} x shape {L1 headers+logs, T1 blocks}, plus, for every range with a start and a stop and batch >= 2 (conc 1), the same job with a SECOND integration on the source that is stepped before every step of the one under test: unrelated, or referenced by it through a filter reference (one client and block cache, dependency limit) (quick: the shape alternates with batch+conc and one inside position, the middle one; thorough: both shapes, every inside position); " +
 			"per job: the environment grows the chain to h+3 in two operations; by default it acts whenever the task idles (one operation, or both: enumerated); deviations enumerated exhaustively: growth operations placed before any step or at any JSON-RPC exchange of the task (the preemption), and process restarts (tasks discarded, real loadTasks again) before any step; on jobs without a recorded position whose start is unset or beyond the head a placed growth may also happen right after the node answered the exchange, followed by a tick of the client's head poller (the poller refreshes the head cache between two reads of the task). quick: <= 1 placed growth, <= 1 restart, both in one execution only when h <= 2 or start is unset; thorough: <= 2 of each, 2 in total (h = 5: one of each). " +
 			"An execution is non-trivial when rows were written or a restart happened; distinct = distinct (job, choice sequence).",
 		Assumptions: []string{
@@ -65,7 +69,7 @@ func init() {
 			"growth-only histories (reorgs are judged by C03); no faults (judged by C02)",
 			"a cursor recorded at stop while the node's head is lower is produced by running the task against the longer chain first (a node that fell behind)",
 		},
-		Budget:        map[string]time.Duration{"quick": 110 * time.Second, "thorough": 840 * time.Second},
+		Budget:        map[string]time.Duration{"quick": 140 * time.Second, "thorough": 840 * time.Second},
 		MinNontrivial: 1000,
 		Inst:          true,
 		Run:           c06Run,
@@ -92,6 +96,17 @@ func c06Jobs(thorough bool) []c06Job {
 							j.Prior = "none"
 							j.Tick = start == 0 || start >= uint64(h)+1
 							jobs = append(jobs, j)
+							if stop > 0 && start > 0 && start <= stop && conc == 1 && batch >= 2 && (thorough || h >= 2) {
+								// several integrations on one source (one client, one block cache, dependency limits)
+								for _, sib := range []string{"free", "ref"} {
+									j := base
+									j.Prior, j.Sib = "none", sib
+									if sib == "ref" {
+										j.Shape = "L1" // (the reference is on an event input)
+									}
+									jobs = append(jobs, j)
+								}
+							}
 							if stop > 0 && start > stop {
 								continue // nothing can ever be recorded: no prior position exists
 							}
@@ -156,7 +171,14 @@ func c06Prepare(j c06Job) (*c06Prep, error) {
 	}
 	d := shape(j.Shape, "ig1", "t1", world.SrcRef{Name: "src1", Start: j.Start, Stop: j.Stop})
 	p := &c06Prep{decl: d}
-	p.conf = world.ConfJSON([]world.Source{{Name: "src1", ChainID: 7, URL: "http://node1", Batch: j.Batch, Conc: j.Conc}}, []*world.Decl{d})
+	decls := []*world.Decl{d}
+	if j.Sib != "" {
+		decls = append(decls, shape(j.Shape, "ig0", "t0", world.SrcRef{Name: "src1", Start: j.Start}))
+		if j.Sib == "ref" {
+			d.Inputs[0].Op, d.Inputs[0].Ref = "contains", &world.Ref{Integration: "ig0", Column: "f"}
+		}
+	}
+	p.conf = world.ConfJSON([]world.Source{{Name: "src1", ChainID: 7, URL: "http://node1", Batch: j.Batch, Conc: j.Conc}}, decls)
 	conf, err := world.ParseConf(p.conf)
 	if err != nil {
 		return nil, err
@@ -168,7 +190,7 @@ func c06Prepare(j c06Job) (*c06Prep, error) {
 	n := j.H + 3
 	p.full = buildChain(acWord(n), d, 1)
 	for b := uint64(1); b <= uint64(n); b++ {
-		if len(d.Expect(p.full, "src1", 7, b, b, nil)) == 0 {
+		if len(d.Expect(p.full, "src1", 7, b, b, func(string, string, []byte) bool { return true })) == 0 {
 			return nil, fmt.Errorf("block %d of the job chain produces no rows for shape %s", b, j.Shape)
 		}
 	}
@@ -262,6 +284,9 @@ func c06Exec(j c06Job, p *c06Prep, ch vrt.Chooser, states *vrt.StateSet, trace b
 		res.vios = append(res.vios, fw.Violation{Property: "C06", Class: class, Key: key, Detail: detail})
 	}
 	tag := j.Shape
+	if j.Sib != "" {
+		tag += ":sibling-" + j.Sib
+	}
 	w.V.StateKey = func() uint64 { return w.CommitHash ^ uint64(w.Node("node1").Version)<<48 }
 
 	// ---- reference model of the recorded position, updated on every commit ----
@@ -279,12 +304,18 @@ func c06Exec(j c06Job, p *c06Prep, ch vrt.Chooser, states *vrt.StateSet, trace b
 		if cm.Ev.Kind != "commit" && cm.Ev.Kind != "autocommit" {
 			return
 		}
-		if len(cm.Ev.Changes) == 0 {
+		var mine []simpg.Change // changes of the integration under test (a sibling's are not judged)
+		for _, c := range cm.Ev.Changes {
+			if c.Table == "public.t1" || (c.Table == "shovel.task_updates" && fmt.Sprint(c.Row.Vals["ig_name"]) == "ig1") {
+				mine = append(mine, c)
+			}
+		}
+		if len(mine) == 0 {
 			return
 		}
 		res.counts["commits_with_changes"]++
 		if stopOK() {
-			vio("write-after-stop", "write-after-stop:"+tag, fmt.Sprintf("position %d >= stop %d is recorded, yet a later transaction changed %d rows (first: %s %s)", mCur, j.Stop, len(cm.Ev.Changes), cm.Ev.Changes[0].Op, cm.Ev.Changes[0].Table))
+			vio("write-after-stop", "write-after-stop:"+tag, fmt.Sprintf("position %d >= stop %d is recorded, yet a later transaction changed %d rows (first: %s %s)", mCur, j.Stop, len(mine), mine[0].Op, mine[0].Table))
 			fatal = true
 		}
 		var (
@@ -292,7 +323,7 @@ func c06Exec(j c06Job, p *c06Prep, ch vrt.Chooser, states *vrt.StateSet, trace b
 			nrows        int
 			curNums      []uint64
 		)
-		for _, c := range cm.Ev.Changes {
+		for _, c := range mine {
 			var n uint64
 			var ok bool
 			switch c.Table {
@@ -396,12 +427,24 @@ func c06Exec(j c06Job, p *c06Prep, ch vrt.Chooser, states *vrt.StateSet, trace b
 			w.HarnessErr = err.Error()
 			return
 		}
+		var task, sib *world.Task
+		pick := func(ts []*world.Task) bool {
+			task, sib = nil, nil
+			for _, t := range ts {
+				switch t.IG {
+				case "ig1":
+					task = t
+				case "ig0":
+					sib = t
+				}
+			}
+			return task != nil && (sib != nil) == (j.Sib != "")
+		}
 		tasks, err := w.LoadTasks(conf)
-		if err != nil || len(tasks) != 1 {
+		if err != nil || !pick(tasks) {
 			w.HarnessErr = fmt.Sprintf("loadTasks: %v (%d tasks)", err, len(tasks))
 			return
 		}
-		task := tasks[0]
 		if task.Start != j.Start || task.Stop != j.Stop {
 			// the harness' own view of the configuration: judged below through the behaviour, not here
 			res.counts["task_range_differs_from_config"]++
@@ -492,13 +535,28 @@ func c06Exec(j c06Job, p *c06Prep, ch vrt.Chooser, states *vrt.StateSet, trace b
 					if w.V.Closing() {
 						return
 					}
-					if err != nil || len(ts) != 1 {
+					if err != nil || !pick(ts) {
 						w.HarnessErr = fmt.Sprintf("restart: loadTasks: %v", err)
 						return
 					}
-					task = ts[0]
 					tickBase = len(w.V.Tickers())
 					res.restarts++
+				}
+				if sib != nil {
+					// the sibling integration of the same process takes its step first (same client, same caches)
+					sout, serr := sib.Step()
+					if w.V.Closing() {
+						return
+					}
+					w.V.WaitIdle()
+					if w.V.Closing() || fatal {
+						return
+					}
+					res.counts["sibling_steps_"+sout]++
+					if sout == "panic" {
+						vio("panic", "panic:sibling:"+tag, fmt.Sprintf("Converge of the sibling integration panicked: %v", serr))
+						return
+					}
 				}
 				hadStop := stopOK()
 				hadCur, curBefore := mHas, mCur
@@ -637,7 +695,15 @@ func c06Exec(j c06Job, p *c06Prep, ch vrt.Chooser, states *vrt.StateSet, trace b
 				vio("completion", "ended-without-done:"+tag, fmt.Sprintf("position %d = stop recorded but the run did not end with completion reports", cur.Num))
 				return
 			}
-			exp := world.RenderRows(d.Expect(p.full, "src1", 7, first, cur.Num, nil), cols)
+			look := func(_, col string, v []byte) bool { // reference look-ups are answered from the sibling's committed table
+				for _, r := range w.PG.Dump("t0") {
+					if b, ok := r.Vals[col].([]byte); ok && string(b) == string(v) {
+						return true
+					}
+				}
+				return false
+			}
+			exp := world.RenderRows(d.Expect(p.full, "src1", 7, first, cur.Num, look), cols)
 			if strings.Join(dump, "\n") != strings.Join(exp, "\n") {
 				vio("rows", "final-table:"+tag, fmt.Sprintf("table != projection of blocks %d..%d\n%s", first, cur.Num, world.DiffSorted(dump, exp)))
 			}
@@ -696,6 +762,9 @@ func c06Bounds(j c06Job, thorough bool) explore.Bounds {
 	if j.H <= 2 || j.Start == 0 {
 		b[0] = 2 // a placed growth AND a restart in one execution
 	}
+	if j.Sib != "" && !thorough {
+		b[0], b[vrt.KEnv] = 1, 0 // (quick: no restarts on the two-integration jobs)
+	}
 	if thorough {
 		b[0], b[vrt.KPreempt], b[vrt.KEnv] = 2, 2, 2
 		if j.H >= 5 {
@@ -737,6 +806,7 @@ func c06Run(c *fw.Ctx) {
 			return
 		}
 		states := vrt.NewStateSet()
+		tJob := time.Now()
 		b := c06Bounds(j, c.Thorough())
 		st := explore.Explore(b, true, func(r *explore.Run) bool {
 			res := c06Exec(j, p, r, states, false)
@@ -778,7 +848,7 @@ func c06Run(c *fw.Ctx) {
 		c.Res.States += int64(states.Len())
 		if dbg := os.Getenv("C06_DEBUG"); dbg != "" {
 			f, _ := os.OpenFile(dbg, os.O_APPEND|os.O_CREATE|os.O_WRONLY, 0o644)
-			fmt.Fprintf(f, "job %+v: executions=%d points=%d maxdepth=%d complete=%v\n", j, st.Executions, st.Points, st.MaxDepth, st.Complete)
+			fmt.Fprintf(f, "job %+v: executions=%d points=%d maxdepth=%d complete=%v ms=%d shard=%d\n", j, st.Executions, st.Points, st.MaxDepth, st.Complete, time.Since(tJob).Milliseconds(), c.Shard)
 			f.Close()
 		}
 		if !st.Complete {
@@ -787,6 +857,9 @@ func c06Run(c *fw.Ctx) {
 		}
 		c.Count("jobs_completed", 1)
 		c.Count("jobs_prior_"+j.Prior, 1)
+		if j.Sib != "" {
+			c.Count("jobs_sibling_"+j.Sib, 1)
+		}
 	}
 }
 
